@@ -47,6 +47,10 @@ func init() {
 		p.Harnesses = append(p.Harnesses, HSpec{Prop: "C12", Pkg: L, Dir: "c12", Func: "VH_C12_IndentCooked", Cfg: cfg, Hang: true,
 			Label: fmt.Sprintf("[quote=%d]", q), Params: map[string]int{"QUOTE": q, "HOLE": 3, "OPTS": q * 3}, Reach: []string{"cooked/done"}})
 	}
+	for _, opts := range []int{0, 3} {
+		p.Harnesses = append(p.Harnesses, HSpec{Prop: "C12", Pkg: L, Dir: "c12", Func: "VH_C12_IndentPreproc", Cfg: cfg, Hang: true,
+			Label: fmt.Sprintf("[opts=%d]", opts), Params: map[string]int{"HOLE": 2, "OPTS": opts}, Reach: []string{"preproc/done"}})
+	}
 	for _, n := range []int{1, 2, 5, 8, 10} {
 		tier := ""
 		if n == 10 {
